@@ -5,6 +5,8 @@ pub fn gen_case(profile: &str, rng: &mut Rng, out: &mut String) -> bool {
     match profile {
         "C01" => super::c01::gen_case(rng, out, false),
         "C02" => super::c02::gen_case(rng, out, false),
+        "C03" => super::c03::gen_case(rng, out),
+        "C03W" => super::c03::gen_window_case(rng, out),
         "C04" => super::c04::gen_case(rng, out),
         "C07" => super::c01::gen_case(rng, out, true),
         "C08" => super::c02::gen_case(rng, out, true),
